@@ -30,7 +30,7 @@ def queries(ctx):
                 u = Unit(u, sed=((r"\b256\b", "2"),))        # SNOOPY_SYSLOG_IDENT_FORMAT_BUF_SIZE scaled 256 -> 2 (ident "ii" no longer fits)
             units.append(u)
         q.units = units
-        q.unwindset = tuple(x for x in q.unwindset if not x.startswith("strlen.0")) + ("harness.0:64", "harness.1:64", "harness.2:64", "harness.3:64", "harness.4:64", "harness.5:64", "harness.6:64", "harness.7:64", "harness.8:64", "strlen.0:72", "strstr.0:72", "strstr.1:72", "strcat.0:72", "strcat.1:72", "memcpy.0:72", "v_copy_bounded.0:72")
+        q.unwindset = tuple(x for x in q.unwindset if not x.startswith("strlen.0")) + ("harness.0:64", "harness.1:64", "harness.2:64", "harness.3:64", "harness.4:64", "harness.5:64", "harness.6:64", "harness.7:64", "harness.8:64", "v_format.2:64", "v_format.3:64", "send.0:44", "strlen.0:72", "strstr.0:72", "strstr.1:72", "strcat.0:72", "strcat.1:72", "memcpy.0:72", "v_copy_bounded.0:72")
         q.models = ("vlibc.c", "vfs.c", "vsys.c")
         q.defines = tuple(q.defines) + ("HAVE_VSYS=1",)
         q.bounds = "output %s with a %s template longer than its (scaled) buffer, error_logging on, all I/O succeeding: nearly concrete run; judged: termination, bounded error reporting (<= 6 opens/sockets), nothing left open" % (oc.OUTNAMES[sel], nm)
